@@ -24,20 +24,31 @@
 (***************************************************************************)
 EXTENDS Naturals, Integers, Sequences, FiniteSets, TLC
 
+\* Deprecated spellings of well-known node labels denote the same label as their stable successor (Kubernetes' label
+\* deprecation table; the kubelet / cloud provider publish both with equal values).  Requirement keys are read modulo it.
+Alias == [k \in {"beta.kubernetes.io/arch", "beta.kubernetes.io/os", "beta.kubernetes.io/instance-type",
+                 "failure-domain.beta.kubernetes.io/zone", "failure-domain.beta.kubernetes.io/region"} |->
+            CASE k = "beta.kubernetes.io/arch" -> "kubernetes.io/arch"
+              [] k = "beta.kubernetes.io/os" -> "kubernetes.io/os"
+              [] k = "beta.kubernetes.io/instance-type" -> "node.kubernetes.io/instance-type"
+              [] k = "failure-domain.beta.kubernetes.io/zone" -> "topology.kubernetes.io/zone"
+              [] k = "failure-domain.beta.kubernetes.io/region" -> "topology.kubernetes.io/region"]
+Norm(k) == IF k \in DOMAIN Alias THEN Alias[k] ELSE k
 Has(L, k) == k \in DOMAIN L
 InVals(r, v) == \E i \in DOMAIN r.vals : r.vals[i] = v
 IntOf(IL, k) == IF k \in DOMAIN IL THEN IL[k] ELSE -1
 IsInt(IL, k) == IntOf(IL, k) >= 0 /\ TRUE
 
 Admits(r, L, IL) ==
-    CASE r.op = "In"           -> Has(L, r.key) /\ InVals(r, L[r.key])
-      [] r.op = "NotIn"        -> ~Has(L, r.key) \/ ~InVals(r, L[r.key])
-      [] r.op = "Exists"       -> Has(L, r.key)
-      [] r.op = "DoesNotExist" -> ~Has(L, r.key)
-      [] r.op = "Gt"           -> Has(L, r.key) /\ IsInt(IL, r.key) /\ r.n >= 0 /\ IntOf(IL, r.key) > r.n
-      [] r.op = "Lt"           -> Has(L, r.key) /\ IsInt(IL, r.key) /\ r.n >= 0 /\ IntOf(IL, r.key) < r.n
-      [] r.op = "Gte"          -> Has(L, r.key) /\ IsInt(IL, r.key) /\ r.n >= 0 /\ IntOf(IL, r.key) >= r.n
-      [] r.op = "Lte"          -> Has(L, r.key) /\ IsInt(IL, r.key) /\ r.n >= 0 /\ IntOf(IL, r.key) <= r.n
+    LET k == Norm(r.key) IN
+    CASE r.op = "In"           -> Has(L, k) /\ InVals(r, L[k])
+      [] r.op = "NotIn"        -> ~Has(L, k) \/ ~InVals(r, L[k])
+      [] r.op = "Exists"       -> Has(L, k)
+      [] r.op = "DoesNotExist" -> ~Has(L, k)
+      [] r.op = "Gt"           -> Has(L, k) /\ IsInt(IL, k) /\ r.n >= 0 /\ IntOf(IL, k) > r.n
+      [] r.op = "Lt"           -> Has(L, k) /\ IsInt(IL, k) /\ r.n >= 0 /\ IntOf(IL, k) < r.n
+      [] r.op = "Gte"          -> Has(L, k) /\ IsInt(IL, k) /\ r.n >= 0 /\ IntOf(IL, k) >= r.n
+      [] r.op = "Lte"          -> Has(L, k) /\ IsInt(IL, k) /\ r.n >= 0 /\ IntOf(IL, k) <= r.n
       [] OTHER                 -> FALSE
 
 \* requirements as a sequence (trace) / as a set (closed model)
@@ -52,7 +63,8 @@ FirstViolated(L, IL, reqs) == CHOOSE i \in Violated(L, IL, reqs) : \A j \in Viol
 Present(a) == a # "-"
 StaticDrift(p, c) ==
     /\ Present(p.hashAnn) /\ Present(p.verAnn) /\ Present(c.hashAnn) /\ Present(c.verAnn)
-    /\ p.verAnn = c.verAnn          \* hashes of different hash versions are never compared
+    /\ p.verAnn = c.verAnn          \* judged iff the two ANNOTATION versions are equal, whatever they are (current or
+                                    \* older); hashes of different hash versions are never compared
     /\ p.hashAnn # c.hashAnn
 ReqDrift(p, c) == ~Sat(c.labels, c.ilabels, p.reqs)
 
